@@ -122,6 +122,11 @@ def run(scn, stats):
                     labels.add("task-plus-descendant")
             parallel_left = flow.has_due() or bool(flow.open)
             n_disp_before = collections.Counter((t, rt_, i) for t, rt_, i in drv.dispatched)
+            # last reported status of every item of the failed with-items executions
+            item_last = {}
+            for (t, rt_, i, s_) in drv.completed:
+                if i is not None and (t, rt_) in {tuple(x) for x in failed}:
+                    item_last[(t, rt_, i)] = s_
             rec = r.step({"op": "rerun", "tasks": tasks})
             if rec["rejected"] and not failed:
                 # nothing failed (unreachable join, fail command ...): there is nothing to re-execute and
@@ -172,6 +177,19 @@ def run(scn, stats):
             for (t, rt_, i), c in collections.Counter((t, rt_, i) for t, rt_, i in drv.dispatched).items():
                 if (t, rt_) in failed_execs and n_disp_before.get((t, rt_, i), 0) > 0 and c > n_disp_before[(t, rt_, i)]:
                     reran[(t, i)] += c - n_disp_before[(t, rt_, i)]
+            # with-items: without reset_items only the items that had not succeeded run again, with it all do
+            if not late_any and item_last:
+                disp_now = collections.Counter((t, rt_, i) for t, rt_, i in drv.dispatched)
+                reset = variant == "reset"
+                for key, s_ in sorted(item_last.items()):
+                    again = disp_now[key] - n_disp_before.get(key, 0)
+                    if not reset and s_ == "succeeded" and again:
+                        raise Violation("succeeded-item-repeated-by-rerun-without-reset", dict(info, item=list(key), times=again, history=common.history_summary(r)[-30:]))
+                    if reset and not again and drv.status() == "succeeded":
+                        raise Violation("item-not-repeated-by-rerun-with-reset", dict(info, item=list(key), history=common.history_summary(r)[-30:]))
+                    if s_ != "succeeded" and not again and drv.status() == "succeeded":
+                        raise Violation("failed-item-not-repeated-by-rerun", dict(info, item=list(key), history=common.history_summary(r)[-30:]))
+                labels.add("items-rerun-reset" if reset else "items-rerun-no-reset")
             if parallel_left:
                 labels.add("parallel-work-left")
             if any(i is not None for (t, i) in reran):
